@@ -14,18 +14,21 @@ import (
 // C05 — refreshing never widens a grant and never crosses clients.
 
 type c05Case struct {
-	Origin    string `json:"origin"`    // code | oidc | password | device | hyb-idt
-	Granted   string `json:"granted"`   // space separated granted scopes
-	Aud       bool   `json:"aud"`       // grant carries audience https://api.example/a
-	Partial   bool   `json:"partial"`   // more was requested (scope photos, audience https://other.example) than the resource owner granted
-	Replace   bool   `json:"replace"`   // the registration edit replaces the stored client record instead of mutating it
-	Param     string `json:"param"`     // none | scope-admin | scope-wider | audience-other | scope-narrower
-	Presenter string `json:"presenter"` // owner | other
-	Edit      string `json:"edit"`      // registration change after issuance
-	RScopes   string `json:"rscopes"`   // none | default | custom
-	Strategy  string `json:"strategy"`  // exact | wildcard | hierarchic
-	HasGrant  bool   `json:"has_grant"` // client registered for refresh_token at issuance
-	Chain     int    `json:"chain"`     // refresh this many times first (legitimately)
+	Origin  string `json:"origin"`  // code | oidc | password | device | hyb-idt
+	Granted string `json:"granted"` // space separated granted scopes
+	Aud     bool   `json:"aud"`     // grant carries audience https://api.example/a
+	Partial bool   `json:"partial"` // more was requested (scope photos, audience https://other.example) than the resource owner granted
+	Replace bool   `json:"replace"`
+	// LostBefore: the client registration loses the refresh_token grant (record replaced) between authorization and
+	// redemption of the code / device code
+	LostBefore bool   `json:"grant_lost_before_redemption,omitempty"` // the registration edit replaces the stored client record instead of mutating it
+	Param      string `json:"param"`                                  // none | scope-admin | scope-wider | audience-other | scope-narrower
+	Presenter  string `json:"presenter"`                              // owner | other
+	Edit       string `json:"edit"`                                   // registration change after issuance
+	RScopes    string `json:"rscopes"`                                // none | default | custom
+	Strategy   string `json:"strategy"`                               // exact | wildcard | hierarchic
+	HasGrant   bool   `json:"has_grant"`                              // client registered for refresh_token at issuance
+	Chain      int    `json:"chain"`                                  // refresh this many times first (legitimately)
 }
 
 var (
@@ -86,6 +89,15 @@ func c05Run(c c05Case, res *WRes) {
 	}
 	var o *Obs
 	sub := "user-1"
+	loseGrant := func() {
+		if !c.LostBefore {
+			return
+		}
+		cp := *cl
+		cp.GrantTypes = without(append([]string(nil), cl.GrantTypes...), "refresh_token")
+		cl = &cp
+		w.Mem.Clients["C"] = cl
+	}
 	switch c.Origin {
 	case "code", "oidc", "hyb-idt":
 		params := url.Values{"client_id": {"C"}, "redirect_uri": {"https://C.example/cb"}, "state": {"state-12345678"}, "response_type": {"code"}, "scope": {scope}, "nonce": {"nonce-12345678"}}
@@ -109,6 +121,7 @@ func c05Run(c c05Case, res *WRes) {
 			res.note("sanity:authorize-refused:" + ao.Class())
 			return
 		}
+		loseGrant()
 		o = w.Token(url.Values{"grant_type": {"authorization_code"}, "code": {ao.Param("code")}, "redirect_uri": {"https://C.example/cb"}}, w.AuthFor("C"))
 	case "password":
 		f := url.Values{"grant_type": {"password"}, "username": {"peter"}, "password": {"pw-peter"}, "scope": {scope}}
@@ -128,6 +141,7 @@ func c05Run(c c05Case, res *WRes) {
 			return
 		}
 		w.AcceptUserCode(do.Str("user_code"), true)
+		loseGrant()
 		o = w.Token(url.Values{"grant_type": {"urn:ietf:params:oauth:grant-type:device_code"}, "device_code": {do.Str("device_code")}}, w.AuthFor("C"))
 		sub = "device-user"
 	}
@@ -158,11 +172,14 @@ func c05Run(c c05Case, res *WRes) {
 		if !hasRScope {
 			viol("C05/refresh-token-issued-without-refresh-scope/origin="+c.Origin+"/rscopes="+c.RScopes, fmt.Sprintf("a refresh token was issued although the grant %v contains none of the configured refresh scopes %v", granted, rscopes), "no refresh_token", o.JSON)
 		}
+		if c.LostBefore {
+			viol("C05/refresh-token-issued-to-client-no-longer-registered-for-refresh/origin="+c.Origin, "a refresh token was issued although the client registration had lost the refresh_token grant before the code was redeemed", "no refresh_token", o.JSON)
+		}
 		if !c.HasGrant && c.Origin != "password" {
 			viol("C05/refresh-token-issued-to-client-without-refresh-grant/origin="+c.Origin, "a refresh token was issued to a client not registered for the refresh_token grant", "no refresh_token", o.JSON)
 		}
 	}
-	if rt == "" {
+	if rt == "" || c.LostBefore {
 		return
 	}
 	// legitimate chain first
@@ -330,8 +347,11 @@ func init() {
 						for _, ed := range c05Edits {
 							for _, hg := range []bool{true, false} {
 								for _, ch := range j.Chains {
-									for _, variant := range []int{0, 1, 2} {
-										c := c05Case{Origin: j.Origin, Granted: gr, Aud: aud, Param: pa, Presenter: pr, Edit: ed, RScopes: j.RScopes, Strategy: j.Strategy, HasGrant: hg, Chain: ch, Partial: variant == 1, Replace: variant == 2}
+									for _, variant := range []int{0, 1, 2, 3} {
+										c := c05Case{Origin: j.Origin, Granted: gr, Aud: aud, Param: pa, Presenter: pr, Edit: ed, RScopes: j.RScopes, Strategy: j.Strategy, HasGrant: hg, Chain: ch, Partial: variant == 1, Replace: variant == 2, LostBefore: variant == 3}
+										if variant == 3 && (j.Origin == "password" || !hg || ed != "none" || pa != "none" || pr != "owner" || ch != 0) {
+											continue // one case per (origin, granted, audience, config): only issuance is judged
+										}
 										if variant == 1 && (j.Origin == "password" || j.Origin == "device") {
 											continue // partial consent only exists at the authorization endpoint
 										}
